@@ -19,6 +19,7 @@ import (
 	"google.golang.org/protobuf/encoding/protojson"
 	"pgregory.net/rapid"
 
+	"github.com/fullstorydev/grpchan"
 	pb "github.com/fullstorydev/grpchan/grpchantesting"
 	"github.com/fullstorydev/grpchan/httpgrpc"
 )
@@ -33,6 +34,7 @@ type c08Case struct {
 	NReq       int    `json:",omitempty"` // req-count
 	FirstEmpty bool   `json:",omitempty"` // req-count: the first request is the empty message (zero-length frame)
 	Method     string `json:",omitempty"` // req-count: which single-request method
+	Decorated  bool   `json:",omitempty"` // req-count: the service description went through grpchan.InterceptServer (pass-through interceptors) first
 }
 
 func propC08(c c08Case) *Outcome {
@@ -191,7 +193,18 @@ func c08ReqCount(c c08Case, o *Outcome) *Outcome {
 		}
 		return stream.SendMsg(&pb.Message{Count: 1})
 	}}
-	car := newCarrier(c.Carrier, newServiceDesc(), svc, carrierOpts{})
+	desc := newServiceDesc()
+	if c.Decorated {
+		o.class("decorated-description")
+		desc = grpchan.InterceptServer(desc,
+			func(ctx context.Context, req interface{}, _ *grpc.UnaryServerInfo, h grpc.UnaryHandler) (interface{}, error) {
+				return h(ctx, req)
+			},
+			func(srv interface{}, ss grpc.ServerStream, _ *grpc.StreamServerInfo, h grpc.StreamHandler) error {
+				return h(srv, ss)
+			})
+	}
+	car := newCarrier(c.Carrier, desc, svc, carrierOpts{})
 	defer car.Close()
 	ctx, cancel := context.WithCancel(context.Background())
 	defer cancel()
@@ -261,7 +274,7 @@ func genC08(t *rapid.T) c08Case {
 		c.Silent = isHTTP(c.Carrier) && rapid.Bool().Draw(t, "silent")
 		return c
 	case 1:
-		return c08Case{Mode: "req-count", Carrier: rapid.SampledFrom([]string{cHTTP, cHTTPMux}).Draw(t, "carrier"), NReq: rapid.IntRange(0, 4).Draw(t, "nreq"), Method: "ServerStream", FirstEmpty: rapid.Bool().Draw(t, "firstempty")}
+		return c08Case{Mode: "req-count", Carrier: rapid.SampledFrom([]string{cHTTP, cHTTPMux}).Draw(t, "carrier"), NReq: rapid.IntRange(0, 4).Draw(t, "nreq"), Method: "ServerStream", FirstEmpty: rapid.Bool().Draw(t, "firstempty"), Decorated: rapid.IntRange(0, 2).Draw(t, "decorated") == 0}
 	}
 	c := c08Case{Mode: "resp-count", Carrier: rapid.SampledFrom(sutCarriers).Draw(t, "carrier")}
 	c.S = genScript(t, scriptGenOpts{MaxMsg: 300, MDKeys: 1, Cardinality: true, NoEarly: true, OnlyKinds: []string{kClientStream}, PlainStatus: true})
